@@ -21,15 +21,25 @@ class StepTimeout(Exception):
 
 @contextlib.contextmanager
 def time_limit(seconds):
-    def handler(signum, frame):
-        raise StepTimeout(f"no return within {seconds}s")
-    old = signal.signal(signal.SIGALRM, handler)
-    signal.setitimer(signal.ITIMER_REAL, seconds)
+    """watchdog on the CPU time of this process (a livelock burns CPU; a loaded machine does not make a terminating
+    step look like one).  A wall-clock backstop far beyond the budget means the harness itself is stalled or starved:
+    that is an infrastructure failure, never a verdict."""
+    def on_cpu(signum, frame):
+        raise StepTimeout(f"no return within {seconds}s of CPU time")
+
+    def on_wall(signum, frame):
+        raise C.Infra(f"harness stalled: no return within {max(600, 30 * seconds)}s wall-clock (CPU budget {seconds}s not used up)")
+    old_p = signal.signal(signal.SIGPROF, on_cpu)
+    old_a = signal.signal(signal.SIGALRM, on_wall)
+    signal.setitimer(signal.ITIMER_PROF, seconds)
+    signal.setitimer(signal.ITIMER_REAL, max(600, 30 * seconds))
     try:
         yield
     finally:
+        signal.setitimer(signal.ITIMER_PROF, 0)
         signal.setitimer(signal.ITIMER_REAL, 0)
-        signal.signal(signal.SIGALRM, old)
+        signal.signal(signal.SIGPROF, old_p)
+        signal.signal(signal.SIGALRM, old_a)
 
 
 WATCHDOG_S = float(os.environ.get("VERIF_WATCHDOG_S", "20"))
@@ -172,6 +182,8 @@ def _run_one(opt, rec, c):
                 for i in range(c.n_iter):
                     opt.search_step(i)
                 opt.finish_search()
+    except C.Infra:
+        raise
     except Exception as e:  # noqa
         exc = e
     snap = None if exc else drv._snapshot(opt, c, rec)
